@@ -484,3 +484,50 @@ Proof.
   intros Hg. induction 1 as [|x l Hs IH Hh]; cbn [map]; constructor; [exact IH|].
   destruct Hh as [|y l' Hxy]; cbn [map]; constructor. now apply Hg.
 Qed.
+
+(* ---- validity of a standard batch <-> admissible entries under the header ------------------ *)
+
+Lemma valid_entries_in T b : bt_kind b = KStd -> validate_batch T b = ROk ->
+  Forall (entry_in T (bt_class b) (bt_odfi b)) (bt_entries b).
+Proof.
+  intros Ek Hv. destruct (valid_std_entries T b Ek Hv) as [Hst Hdir].
+  destruct (verify_facts T b (validate_batch_verify T b Hv)) as [_ _ Fc Fcl Fo _ _ Fasc _ _ _ Ft].
+  rewrite Ek in *. specialize (Fasc ltac:(discriminate)). apply ascending_above in Fasc.
+  unfold trace_odfi_ok in Ft. rewrite forallb_forall in Ft.
+  unfold validate_bctl in Fc. ok_split. rewrite Forall_forall in Hst, Hdir, Fasc.
+  apply Forall_forall. intros x Hx. unfold entry_in. repeat split.
+  - apply class_okb_spec. rewrite Fcl. split; [|assumption].
+    match goal with H : negb (_ =? 0) = true |- _ => now apply negb_true_iff, Z.eqb_neq in H end.
+  - rewrite Fo. match goal with H : negb (bytes_eqb _ _) = true |- _ => now apply negb_true_iff in H end.
+  - now apply Hst.
+  - now apply Hdir.
+  - exact (Fasc x Hx).
+  - symmetry. apply bytes_eqb_eq. now apply Ft.
+Qed.
+
+Lemma entries_in_valid T cls odfi num es :
+  es <> [] -> Forall (entry_in T cls odfi) es -> Sorted bytes_lt (map en_trace es) ->
+  calc_debit T KStd es <= t_batch_limit T -> calc_credit T KStd es <= t_batch_limit T ->
+  validate_batch T (tabulate T KStd cls odfi num es) = ROk.
+Proof.
+  intros Hne Hin Hs Hd Hc. destruct es as [|e0 es0] eqn:E; [congruence|]. rewrite <- E in *.
+  assert (H0 : entry_in T cls odfi e0) by (rewrite Forall_forall in Hin; apply Hin; rewrite E; now left).
+  destruct H0 as (K1 & K2 & _).
+  apply tabulate_valid; try assumption.
+  - eapply Forall_impl; [|exact Hin]. intros x (_ & _ & K & _). exact K.
+  - eapply Forall_impl; [|exact Hin]. intros x (_ & _ & _ & K & _). exact K.
+  - apply ascending_from_sorted; [|exact Hs]. eapply Forall_impl; [|exact Hin]. intros x (_ & _ & _ & _ & K & _). exact K.
+  - eapply Forall_impl; [|exact Hin]. intros x (_ & _ & _ & _ & _ & K). exact K.
+Qed.
+
+(* ascending numbers survive File.Create's renumbering *)
+Lemma renumber_keeps_ascending bs : forall lo seq, numbers_ascending lo bs = true -> 1 <= seq <= lo + 1 ->
+  numbers_ascending lo (renumber seq bs) = true.
+Proof.
+  induction bs as [|b bs IH]; intros lo seq H Hs; cbn [renumber numbers_ascending] in *; [reflexivity|].
+  destruct (bt_number b <=? lo) eqn:E; [discriminate|]. apply Z.leb_gt in E.
+  assert (Hn : bt_number (if bt_number b <=? 1 then set_number b seq else b) = bt_number b).
+  { destruct (bt_number b <=? 1) eqn:E1; [|reflexivity]. apply Z.leb_le in E1. cbn [set_number bt_number]. lia. }
+  rewrite Hn. replace (bt_number b <=? lo) with false by (symmetry; apply Z.leb_gt; lia).
+  apply IH; [exact H|lia].
+Qed.
